@@ -131,4 +131,4 @@ def main(tier, seed, replay=None):
                 cl.Config(n=2, crash=1, restart=1, user=2, sync=('USER',))]
     return cc.run('C01', tier, seed, LABELS, TERMINAL, e1, ['TerminalC01'], ['StepsC01'], sim, rnd,
                   n_beh=48 if q else 400, beh_depth=150, n_rnd=40 if q else 400, rnd_steps=250,
-                  e1_timeout=600 if q else 2400, extra_scenarios=[automatic_actions, oneway_scenarios])
+                  e1_timeout=600 if q else 1500, extra_scenarios=[automatic_actions, oneway_scenarios])
